@@ -389,6 +389,23 @@ Definition csv_records (o : opts) desc rows : list (list str) :=
 Definition render_csv (o : opts) desc rows : option str :=
   if well_typed desc rows && supported o desc then Some (flat_map csv_record (csv_records o desc rows)) else None.
 
+(* ---------- CostRenderer (bld-render4; definitions only): Cost(number, currency, date, label).  update reserves the width
+   of the amount part (an AmountRenderer fed number / currency), 10 + 2 once a date was seen and len(label) + 4 for the longest
+   label; format joins the amount text, the date as %Y-%m-%d and the label between double quotes (NOT escaped) with ', ' ---------- *)
+Record cost := mkcost { c_amt : amt; c_date : option (Z * Z * Z); c_label : option str }.
+Record cstate := mkcst { c_a : astate; c_dw : nat; c_lw : nat }.
+Definition c_init : cstate := mkcst a_init 0 0.
+Definition c_update (st : cstate) (v : cost) : cstate :=
+  mkcst (a_update (c_a st) (c_amt v))
+        (match c_date v with Some _ => 12 | None => c_dw st end)
+        (match c_label v with Some l => Nat.max (c_lw st) (length l + 4) | None => c_lw st end).
+Definition c_width (st : cstate) : nat := (a_width (c_a st) + c_dw st + c_lw st)%nat.
+Definition c_parts (st : cstate) (v : cost) : list str :=
+  [a_format (c_a st) (c_amt v)]
+  ++ (match c_date v with Some (y, m, d) => [date_str y m d] | None => [] end)
+  ++ (match c_label v with Some l => [[34] ++ l ++ [34]] | None => [] end).
+Definition c_format (st : cstate) (v : cost) : str := join [44; 32] (c_parts st v).
+
 End Render.
 
 (* ---------- serialisation for the correspondence runner ---------- *)
